@@ -639,3 +639,14 @@ def block_specs():
                             vals.extend(range(base + b * stride, base + b * stride + ln))
                         out.append(scope_spec(r, sorted(set(vals))))
     return out
+
+
+def zero_first_specs():
+    """Declarations that start with implicit variants (0, 1, ...) and continue below zero with an explicit negative
+    discriminant: gapless and with holes, every signed repr."""
+    out = []
+    for r in ("i8", "i16", "i32", "i64", "isize", "i128"):
+        for decl in ([None, None, None, "-2", None], [None, "-3", None, None, "1"], [None, None, "-5", None, "7"], [None, "-1"]):
+            out.append({"repr": r, "vis": "pub", "ident": "E", "enum_attrs": [],
+                        "variants": [{"ident": "V%d" % i, "disc": d} for i, d in enumerate(decl)]})
+    return out
